@@ -362,7 +362,9 @@ func (g *graph) walk(tdb *trie.NodeDatabase, h common.Hash, r role) {
 type universe struct {
 	addrs   []common.Address
 	keys    [][]byte
-	written []slotRef // slots some earlier op wrote a value to (targets for clear / reverted-write patterns)
+	written []slotRef    // slots some earlier op wrote a value to (targets for clear / reverted-write patterns)
+	funded  map[int]bool // addresses that received a balance in an earlier block
+	created map[int]bool // addresses whose account object was created (nonce / code / data write)
 }
 
 type slotRef struct {
@@ -572,6 +574,31 @@ func genValue(r *hx.Rng) []byte {
 }
 
 func genBlock(r *hx.Rng, u *universe, codes [][]byte, big bool) []op {
+	if u.funded == nil {
+		u.funded, u.created = map[int]bool{}, map[int]bool{}
+	}
+	if !big && r.Intn(7) == 0 {
+		// a quiet block: its only mutation is the self-destruct of one existing account that holds a
+		// balance (nothing else touches the balance-holder account), plain or inside a bracket
+		var cand []int
+		for a := range u.addrs {
+			if u.funded[a] && u.created[a] {
+				cand = append(cand, a)
+			}
+		}
+		if len(cand) > 0 {
+			a := cand[r.Intn(len(cand))]
+			switch r.Intn(4) {
+			case 0:
+				return []op{{kind: "snap"}, {kind: "suicide", a: a}, {kind: "revert"}}
+			case 1:
+				return []op{{kind: "snap"}, {kind: "suicide", a: a}, {kind: "keep"}}
+			default:
+				delete(u.created, a)
+				return []op{{kind: "suicide", a: a}}
+			}
+		}
+	}
 	var ops []op
 	n := 1 + r.Intn(10)
 	for i := 0; i < n; i++ {
@@ -609,6 +636,12 @@ func genBlock(r *hx.Rng, u *universe, codes [][]byte, big bool) []op {
 	for _, o := range ops {
 		if o.kind == "data" && len(o.v) > 0 && len(u.written) < 64 {
 			u.written = append(u.written, slotRef{o.a, o.k})
+		}
+		switch {
+		case o.kind == "bal":
+			u.funded[o.a] = true
+		case o.kind == "nonce" && o.n > 0, o.kind == "code" && len(o.v) > 0, o.kind == "data" && len(o.v) > 0:
+			u.created[o.a] = true
 		}
 	}
 	if big { // enough data for several batches (IdealBatchSize = 100 KiB)
@@ -720,11 +753,14 @@ func slotPatterns(r *hx.Rng, u *universe) []op {
 func preRead(adb *account.AccountDB, u *universe) (m map[string]string, skipAcct map[int]bool, skipCode map[int]bool) {
 	m, skipAcct, skipCode = map[string]string{}, map[int]bool{}, map[int]bool{}
 	for i, a := range u.addrs {
+		p := fmt.Sprintf("get/a%d/", i)
 		if adb.HasSuicided(a) {
+			// the object is removed at the commit; its balance (a slot of the balance-holder account,
+			// zeroed by the self-destruct) must still read the same afterwards
 			skipAcct[i] = true
+			m[p+"bal"] = adb.GetBalance(a).String()
 			continue
 		}
-		p := fmt.Sprintf("get/a%d/", i)
 		m[p+"nonce"] = fmt.Sprint(adb.GetNonce(a))
 		m[p+"bal"] = adb.GetBalance(a).String()
 		if adb.GetCodeHash(a) == keccakEmpty {
@@ -745,16 +781,17 @@ func preRead(adb *account.AccountDB, u *universe) (m map[string]string, skipAcct
 // answered before its Commit. Returns (kind, description) of the first difference.
 func compareWithPre(pre map[string]string, skipAcct, skipCode map[int]bool, exp map[string]string, u *universe) (string, string) {
 	for i := range u.addrs {
-		if skipAcct[i] {
-			continue
-		}
 		p := fmt.Sprintf("get/a%d/", i)
 		names := []string{"nonce", "bal"}
-		if !skipCode[i] {
-			names = append(names, "code")
-		}
-		for j := range u.keys {
-			names = append(names, fmt.Sprintf("k%d", j))
+		if skipAcct[i] {
+			names = []string{"bal"}
+		} else {
+			if !skipCode[i] {
+				names = append(names, "code")
+			}
+			for j := range u.keys {
+				names = append(names, fmt.Sprintf("k%d", j))
+			}
 		}
 		for _, n := range names {
 			if pre[p+n] != exp[p+n] {
@@ -877,7 +914,8 @@ func idList(g *graph, hs []common.Hash) string {
 type histParams struct {
 	seed   uint64
 	blocks int
-	big    int // index of the multi-batch block, -1 none
+	big    int  // index of the multi-batch block, -1 none
+	pre002 bool // chain height below Proposal002Block: AddFT/SubFT write the balance slot through the raw setData
 }
 
 type rootInfo struct {
@@ -907,6 +945,12 @@ func hashOfKey(k string) (common.Hash, bool) {
 }
 
 func (rn *runner) history(p histParams) {
+	if p.pre002 {
+		saved := common.LocalChainConfig.Proposal002Block
+		common.LocalChainConfig.Proposal002Block = 1 << 60
+		defer func() { common.LocalChainConfig.Proposal002Block = saved }()
+		rn.res.Histogram["histories-below-proposal002"]++
+	}
 	r := hx.NewRng(p.seed)
 	u := genUniverse(r)
 	var codes [][]byte
@@ -930,9 +974,9 @@ func (rn *runner) history(p histParams) {
 	parent := common.Hash{}
 	lastDurable := common.Hash{}
 	var commitTerms []string
-	desc := map[string]interface{}{"history_seed": p.seed, "blocks": p.blocks, "big_block": p.big}
+	desc := map[string]interface{}{"history_seed": p.seed, "blocks": p.blocks, "big_block": p.big, "below_proposal002": p.pre002}
 	input := func(extra map[string]interface{}) map[string]interface{} {
-		m := map[string]interface{}{"history_seed": p.seed, "blocks": p.blocks, "big_block": p.big,
+		m := map[string]interface{}{"history_seed": p.seed, "blocks": p.blocks, "big_block": p.big, "below_proposal002": p.pre002,
 			"replay": "history(seed) regenerates universe, ops and commit schedule deterministically"}
 		for k, v := range extra {
 			m[k] = v
@@ -2130,6 +2174,7 @@ func main() {
 				p.blocks = 5
 			}
 		}
+		p.pre002 = h%5 == 3
 		rn.history(p)
 		h++
 	}
